@@ -6,7 +6,7 @@ from pv.ref.role import roles_for
 
 CONCEPTS = ['alpha', 'beta', 'b', 'i', '"a string"', '1', 'x-01', '"a~b"', 'c', 'want-01', '"(x / y)"', 'a', '_', '0',
             '\u00e9t\u00e9', '42nd', '---', '"\\"q\\""', '"#"', 'k']
-CONSTS = ['-', '5', '1.5', '"str"', '"a b(c)"', 'sym', '+', '"~1"', 'imperative', '0', '0.0', '"x : y"', '"a/b"',
+CONSTS = ['-', '5', '12345678901234567890', '"' + 'long string ' * 12 + '"', 'sym' * 20, '1.5', '"str"', '"a b(c)"', 'sym', '+', '"~1"', 'imperative', '0', '0.0', '"x : y"', '"a/b"',
           '"# c"', 'http', "d'", '1,000', '^q', '"\\\\"', '-1', '1e3', 'mod', 'u\u2028w', '"t\u0085u"']
 AMR_ROLES = [':ARG0', ':ARG1', ':ARG2', ':mod', ':domain', ':op1', ':op2', ':op10', ':polarity', ':quant', ':time',
              ':location', ':part', ':name', ':consist-of', ':prep-on-behalf-of', ':poss', ':wiki', ':subset',
@@ -51,7 +51,7 @@ def role_pool_for(spec, extra=()):
 @st.composite
 def wf_trees(draw, spec, max_nodes=8, aligned=True, inverted=True, noconcept=True, emptyconcept=True,
              missing=True, attrs=True, reent=True, deep=False, role_pool=None, concepts=None, consts=None,
-             extra_roles=()):
+             extra_roles=(), wide=3):
     """Well-formed tree by construction: every variable heads one node, denoted triples pairwise distinct,
     edge roles in canonical inversion form, no inverted self-loop, no empty node."""
     R = roles_for(spec)
@@ -62,7 +62,7 @@ def wf_trees(draw, spec, max_nodes=8, aligned=True, inverted=True, noconcept=Tru
         n = draw(st.integers(3, max_nodes))
     else:
         n = draw(st.integers(1, max_nodes))
-    vs = fy(draw, VARS)[:n] if n <= len(VARS) else ['v%d' % i for i in range(n)]
+    vs = fy(draw, VARS)[:n] if n <= len(VARS) else fy(draw, VARS + ['w%d' % i for i in range(n - len(VARS))])
     vset = set(vs)
     parents = [None] + [(k - 1 if deep and chance(draw, 5, 6) else draw(st.integers(0, k - 1))) for k in range(1, n)]
     children = {k: [] for k in range(n)}
@@ -106,7 +106,7 @@ def wf_trees(draw, spec, max_nodes=8, aligned=True, inverted=True, noconcept=Tru
         elif c == 2 and emptyconcept:
             branches.append(['/', None])
         items = [('child', ch) for ch in children[k]]
-        for _ in range(draw(st.integers(0, 3))):
+        for _ in range(draw(st.integers(0, wide))):
             items.append((pick(draw, ['attr', 'reent', 'attr', 'miss']), None))
         items = fy(draw, items)
         for kind, ch in items:
@@ -184,7 +184,7 @@ WILD_ROLES = [':ARG0', ':ARG1', ':r', ':', ':r-of', ':ARG0-of', ':ARG0-of-of', '
 
 
 @st.composite
-def any_trees(draw, max_nodes=7, canonical_alignments=False, unicode=True, depth=None):
+def any_trees(draw, max_nodes=7, canonical_alignments=False, unicode=True, depth=None, max_branches=4):
     """Any tree the grammar can spell: duplicate variables, missing concept/target, nested empty nodes, over-inverted
     roles, Unicode symbols, strings with delimiters, alignments anywhere."""
     budget = [draw(st.integers(1, max_nodes))]
@@ -231,7 +231,7 @@ def any_trees(draw, max_nodes=7, canonical_alignments=False, unicode=True, depth
             branches.append(['/', (pick(draw, CONCEPTS) if chance(draw, 4, 5) else draw(strings())) + aln()])
         elif c == 2:
             branches.append(['/', None])
-        for _ in range(draw(st.integers(0, 4))):
+        for _ in range(draw(st.integers(0, max_branches))):
             k = draw(st.integers(0, 9))
             if k < 4 and budget[0] > 0:
                 branches.append([role(), node(level + 1)])
